@@ -23,7 +23,7 @@ CLAUSES_OF = {
     "C04": {"insts.dstat", "insts.unsat", "insts.state", "world"},
     "C05": {"reg", "world", "insts.domain"},
     "C06": None,  # every disagreement concerns the job state machine / experiment exit
-    "C07": {"failed", "insts.state", "insts.result", "waiter"},
+    "C07": {"failed", "insts.state", "insts.result", "waiter", "unfinished"},   # (unfinished: leaving early = independent jobs never run)
     "C08": {"avail", "insts.held"},
     "C09": {"avail", "insts.held", "ready", "insts.ev", "insts.dstat", "insts.unsat"},
     "C11": {"world", "phase", "insts.domain", "insts.state", "insts.result", "failed"},
@@ -37,7 +37,7 @@ PLAN_FILTER = {
                                    "waitjob", "kill-restart", "rerun")),
     "C05": lambda n: n.startswith(("dup", "resubmit", "rerun", "kill", "stop", "chain2-direct")),
     "C06": lambda n: True,
-    "C07": lambda n: "fail" in n or n.startswith(("late", "diamond", "fork", "chain3", "resubmit", "rerun-failed")),
+    "C07": lambda n: "fail" in n or n.startswith(("late", "diamond", "fork", "chain3", "resubmit", "rerun-failed", "oom", "kill-restart-oom")),
     "C08": lambda n: n.startswith(("tok", "kill-restart-tok")),
     "C09": lambda n: n.startswith(("tok", "kill-restart-tok")),
     "C11": lambda n: n.startswith(("rerun", "kill", "stop")),
@@ -84,6 +84,11 @@ def oracle(prop, result):
                     return k, f"body of {n} started although it had succeeded"
                 if w[n]["bodyends"] > 1:
                     return k, f"body of {n} succeeded {w[n]['bodyends']} times"
+            if prop == "C05" and e["a"] == "SubmitReturn" and e["args"]["r"] == "own" and prev is not None:
+                # a second job for a configuration already submitted in this experiment: only legitimate after a failure
+                n, num = e["args"]["j"].split("#")
+                if int(num) > 0 and sum(1 for i in prev["insts"] if i.startswith(n + "#")) >= 1 and w[n]["done"] and not w[n]["failed"]:
+                    return k, f"a second job was created for {n}, which has succeeded and never failed"
         if prop == "C06":
             if prev is not None and prev["phase"] == "run" and st["phase"] != "dead" and st["inc"] == prev["inc"]:
                 for i, v in st["insts"].items():
@@ -112,6 +117,16 @@ def oracle(prop, result):
                 if prop == "C09" and e["a"] == "End" and st["phase"] == "closed" and avail[t] != c:
                     return k, f"token {t} not full at the end ({avail[t]}/{c})"
         prev = st
+    if prop == "C07" and evs and evs[-1]["a"] == "End" and evs[-1]["st"]["phase"] == "closed":
+        # every job whose upstream jobs all succeeded has run (or had succeeded before)
+        st = evs[-1]["st"]
+        for i, v in st["insts"].items():
+            n = i.split("#")[0]
+            ups = jobs[n].get("deps", {})
+            if v["pc"] in ("reg", "regdone") or st["exitmode"]:
+                continue
+            if all(st["world"][u]["done"] for u in ups) and not (st["world"][n]["launches"] > 0 or st["world"][n]["done"]):
+                return len(evs), f"{n} does not depend on a failed job but was never run"
     if result["verdict"]["end"] == "hang" and prop in ("C06", "C09"):
         return len(evs), "quiescent hang: the main thread is blocked and nothing is enabled"
     return None
